@@ -8,7 +8,7 @@
   Not proved: "the span text is the label's first occurrence" (a statement about the source text and the parser's
   label positions) — checked by the oracle on generated programs.
 -/
-import Lc3V.Props.C01
+import Lc3V.Lemmas.C01Core
 set_option linter.unusedSimpArgs false
 namespace Lc3V.C23
 open Lc3V
